@@ -608,7 +608,7 @@ fn build(plan: &C06Plan, skipped: &mut u64) -> Result<Vec<Built>, String> {
             let tc = if (5..=8).contains(&r.tc) { r.tc } else { 5 + (sel % 4) as u8 };
             world::df17_surface_position(ac.icao, tc, truth.gs, truth.heading, truth.lat, truth.lon, r.odd)
         } else {
-            let tc = if (9..=18).contains(&r.tc) || (20..=22).contains(&r.tc) { r.tc } else { 9 + (sel % 10) as u8 };
+            let tc = if (9..=18).contains(&r.tc) || (20..=22).contains(&r.tc) { r.tc } else { [9u8, 10, 11, 12, 13, 14, 15, 16, 17, 18, 20, 21, 22][(sel % 13) as usize] };
             world::df17_airborne_position(ac.icao, tc, truth.alt as i32, truth.lat, truth.lon, r.odd)
         };
         if world::nl_margin(enc.rlat) < 1e-6 {
